@@ -127,7 +127,13 @@ func ribCorpus() []*CaseSpec {
 	hook := Step{Kind: "sethook"}
 	fwd := &RibCfg{Fwd: true, Pools: p, Resolved: true}
 	nofwd := &RibCfg{Fwd: false, Pools: p}
+	bad := func(s Step) Step { s.Cls = "bad"; return s }
 	return []*CaseSpec{
+		// DELETE of keys that are not a prefix / a label of the 20-bit range (D21): FAILED, nothing changes
+		ribCase("corpus/delete-invalid-key", fwd, []Step{nh(1, A, "DEFAULT", 1), nhg(2, A, "DEFAULT", 1, 0, 1), v4(3, A, "DEFAULT", "1.0.0.0/8", 1, ""),
+			bad(v4(4, D, "DEFAULT", "not-a-prefix", 1, "")), bad(v6(5, D, "DEFAULT", "1.2.3.4/33", 1, "")), bad(mpls(6, D, "DEFAULT", 1048576+100, 1)), bad(v4(7, D, "DEFAULT", "", 1, ""))}),
+		// a group naming index 0 next to a next-hop that is not installed (D22): FAILED, never held
+		ribCase("corpus/nhg-zero-and-missing", fwd, []Step{nh(1, A, "DEFAULT", 1), nhg(2, A, "DEFAULT", 1, 0, 0, 3), nhg(3, A, "DEFAULT", 2, 0, 3, 0), nhg(4, A, "DEFAULT", 3, 0, 1, 0, 3), nh(5, A, "DEFAULT", 3)}),
 		// REPLACE queued behind a missing group, then DELETE, then the group arrives
 		ribCase("corpus/replace-held-delete-group-arrives", fwd, []Step{hook, nh(1, A, "DEFAULT", 1), nhg(2, A, "DEFAULT", 1, 0, 1), v4(3, A, "DEFAULT", "1.0.0.0/8", 1, ""),
 			v4(4, R, "DEFAULT", "1.0.0.0/8", 5, ""), v4(5, D, "DEFAULT", "1.0.0.0/8", 0, ""), nhg(6, A, "DEFAULT", 5, 0, 1), nh(7, A, "DEFAULT", 2), nhg(8, A, "DEFAULT", 2, 0, 2)}),
@@ -169,7 +175,10 @@ func init() {
 		Required: []string{"add.ok", "add.hold", "add.err", "add.cascade", "del.ok", "del.refd", "del.absent", "del.err", "flush", "pend.nonempty", "hooks.nonempty"},
 	}
 	ribDiffs := []string{"add.", "del.", "ents", "flush", "addni"}
-	props["C01"] = &PropSpec{Mode: "rib", Diffs: ribDiffs, Monitors: []string{"c01"}}
+	// C01 is a statement about the server: the second mode drives real Modify streams (held
+	// operations released by later ones, several sessions) and folds the acknowledgements the
+	// streams carried, in the order they carried them
+	props["C01"] = &PropSpec{Mode: "rib", Extra: []string{"srv.answers"}, Diffs: append(append([]string{}, ribDiffs...), "msg.resps", "msg.not-accepted"), Monitors: []string{"c01"}}
 	props["C02"] = &PropSpec{Mode: "rib", Diffs: []string{"add.", "pend"}, Monitors: []string{"c02"}}
 	props["C03"] = &PropSpec{Mode: "rib", Diffs: []string{"refs", "del."}, Monitors: []string{"c03"}}
 	props["C16"] = &PropSpec{Mode: "rib", Diffs: []string{"hooks", "resolved"}, Monitors: []string{"c16"}}
